@@ -62,8 +62,8 @@ template <class Aut> static void pairEnc(const ref::TA& A, const ref::TA& B, con
   } catch (std::exception& e) { bad("pair operations", "exception", e.what()); }
 }
 
-static void pairs(Env& env, const std::string& stage, int n, const dom::Alphabet& sig, int perSide, int totalMax) {
-  auto D = std::make_shared<dom::TADomain>(n, sig, perSide); auto P = std::make_shared<dom::PairIndex>(*D, totalMax);
+static void pairs(Env& env, const std::string& stage, int n, const dom::Alphabet& sig, int perSide, int totalMax, bool trimmedOnly = false) {
+  auto D = std::make_shared<dom::TADomain>(n, sig, perSide, !trimmedOnly, trimmedOnly); if (trimmedOnly) D->keepTrimmedOnly(); auto P = std::make_shared<dom::PairIndex>(*D, totalMax);
   env.noteNum(stage + ".automata", D->size());
   ParallelOpts o; o.stage = stage; o.size = P->total; o.block = 128; o.caseTimeout = 30;
   o.describe = [D, P](uint64_t idx) { auto ij = P->get(idx); return "A: " + D->str(D->get(ij.first)) + " | B: " + D->str(D->get(ij.second)); };
@@ -81,6 +81,9 @@ static Register p1("c08.pairs.n2s2k2", "C08", "all ordered pairs of TA(2,{a:0,b:
 static Register p2("c08.pairs.n2s2k3", "C08", "all ordered pairs of TA(2,{a:0,b:0,g:2},<=3)", [](Env& e) { pairs(e, "c08.pairs.n2s2k3", 2, dom::Sigma2(), 3, 6); });
 static Register p3("c08.pairs.n2s3k2", "C08", "all ordered pairs of TA(2,{a:0,b:0,f:1,g:2},<=2)", [](Env& e) { pairs(e, "c08.pairs.n2s3k2", 2, dom::Sigma3(), 2, 4); });
 
+static Register p6("c08.pairs.trim.n2s2k3", "C08", "all ordered pairs of TRIMMED automata of TA(2,{a:0,b:0,g:2},<=3)", [](Env& e) { pairs(e, "c08.pairs.trim.n2s2k3", 2, dom::Sigma2(), 3, 6, true); });
+static Register p4("c08.pairs.trim.n3s3pk3", "C08", "all ordered pairs of TRIMMED automata of TA(3,{a:0,f:1,g:2},<=3): Union, UnionDisjointStates, Intersection in both BDD encodings", [](Env& e) { pairs(e, "c08.pairs.trim.n3s3pk3", 3, dom::Sigma3p(), 3, 6, true); });
+static Register p5("c08.pairs.trim.n3s3pk4", "C08", "all ordered pairs of TRIMMED automata of TA(3,{a:0,f:1,g:2},<=4) with <=7 rules in total", [](Env& e) { pairs(e, "c08.pairs.trim.n3s3pk4", 3, dom::Sigma3p(), 4, 7, true); });
 }  // namespace c08
 
 // ------------------------------------------------------------------------------------------------------------------
